@@ -73,6 +73,12 @@ func All() map[string]orch.PropertySpec {
 		"C16": {ID: "C16", Level: "model_checking", Assumptions: append([]string{"relay-state strings are seeded samples of their class", "the page is tokenised by Python's html.parser; newline normalisation performed by browsers when a form is submitted is outside the library and not modelled"}, trusted...),
 			Rule: "cases TLC enumerates from spec/Bindings.tla (post): BuildAuthBodyPost, BuildAuthBodyPostFromDocument, BuildLogoutBodyPostFromDocument, BuildLogoutResponseBodyPostFromDocument x relay-state class x IdP URL shape x signed / unsigned; the page is tokenised by html.parser: one form, action = endpoint, one message field decoding to exactly the document, RelayState iff given and equal, a submitting script, and the tag/attribute-name skeleton equal to the one produced with a benign relay state in the same run; non-trivial = every case",
 			Parts: []orch.Part{{Family: fam.Bindings{}, Monitors: []string{"C16"}}}},
+		"C18": {ID: "C18", Level: "model_checking", Assumptions: append([]string{"'unpredictable' is reduced to provenance: every free bit of every identifier is a bit of one 16-octet read from crypto/rand.Reader, and no read is used twice; the quality of the operating system's generator is assumed", "crypto/rand.Reader is wrapped by a recording reader for the duration of the run"}, trusted...),
+			Rule: "TLC exhaustively checks the bit forcing and formatting of spec/IdGen.tla over the two affected octets; a history of 20 000 (quick) / 150 000 (thorough) message constructions across 3 kinds (+ the signing path), 4 SP instances and 8 goroutines is recorded with the octets drawn; the history is sorted and TLC checks on every line: identifier = '_' + canonical form of the draw with forced bits, legal xs:ID, exactly one matching draw, strictly greater than its predecessor (pairwise distinctness); distinct = distinct identifiers; non-trivial = every event",
+			Parts: []orch.Part{{Family: fam.IdGen{}, Monitors: []string{"C18"}}}},
+		"C17": {ID: "C17", Level: "model_checking", Assumptions: append([]string{"interleavings are controlled at the six observation points of SigningContext() (build tag verif); code between two points runs atomically with respect to the other controlled goroutines"}, trusted...),
+			Rule: "TLC explores every interleaving of N goroutines x K calls of the PlusCal algorithm spec/SigningCtx.tla (quick 2x2, thorough 3x1) with mutual-exclusion, race-freedom, configured-before-visible and termination properties, and emits every complete schedule; each schedule is forced through the real SigningContext() with blocking gates while the goroutines run real signing operations (SigningContext, signed AuthnRequest / LogoutRequest / LogoutResponse); every result is checked against what the call returns alone (signature analysed independently); the observed event sequence is validated step by step against the algorithm by TLC; distinct = distinct schedules; non-trivial = every schedule",
+			Parts: []orch.Part{{Family: fam.SigningCtx{}, Monitors: []string{"C17"}}}},
 	}
 }
 
